@@ -454,6 +454,52 @@ void buildPool()
             add(P, m2);
         }
     }
+    // G9: ONE definition reaching the SAME resolved imported units more than once:
+    //   twice      r = imp[a] * imp[b]                                  (imp imports the library's "in")
+    //   two-names  r = imp[a] * imp2[b]                                 (two imported units naming the same library units)
+    //   +local     r = imp[a] * loc[b],  loc = imp[c]   (both orders)   (directly and through a local intermediate that uses the import)
+    //   +imported  r = imp[a] * impm[b], impm imports the library's mid = in[c]  (both orders; directly and through an imported intermediate)
+    {
+        const std::vector<Attr> AP = {{0, 0, 0}, {1, 0, 0}, {0, 1, 0}, {0, 2, 0}};  // identity, milli, ^2, ^-1
+        const std::vector<Attr> AC = {{0, 0, 0}, {0, 2, 0}, {0, 1, 0}};             // inner link: identity, ^-1, ^2
+        size_t nin = g_thorough ? inners.size() : std::min<size_t>(5, inners.size());
+        auto impDef = [](const std::string &n, const std::string &ref) { Def d; d.name = n; d.import = true; d.importRef = ref; return d; };
+        for (size_t k = 0; k < nin; ++k) for (auto &a : AP) for (auto &b : AP) {
+            std::string ex = (a.e == 0 && b.e == 0) ? ":exp=1" : ":exp!=1";
+            {
+                Member m; m.kind = "via-same-import-twice" + ex;
+                Def d; d.name = "r"; d.items = {{"imp", a}, {"imp", b}};
+                m.main = {d, impDef("imp", "in")}; m.lib = inners[k]; needBases(m.lib); m.root = "r";
+                add(P, m);
+            }
+            {
+                Member m; m.kind = "via-two-imports-of-same-units" + ex;
+                Def d; d.name = "r"; d.items = {{"imp", a}, {"imp2", b}};
+                m.main = {d, impDef("imp", "in"), impDef("imp2", "in")}; m.lib = inners[k]; needBases(m.lib); m.root = "r";
+                add(P, m);
+            }
+            for (auto &cc : AC) for (int order = 0; order < 2; ++order) {
+                {
+                    Member m; m.kind = "via-import+local-intermediate-using-it" + ex;
+                    Def d; d.name = "r"; Item i1{"imp", a}, i2{"loc", b};
+                    d.items = order ? std::vector<Item>{i2, i1} : std::vector<Item>{i1, i2};
+                    Def loc; loc.name = "loc"; loc.items = {{"imp", cc}};
+                    m.main = {d, loc, impDef("imp", "in")}; m.lib = inners[k]; needBases(m.lib); m.root = "r";
+                    m.twin = int(P.size()) + (order ? -2 : 2); m.twinWhy = "child-order";
+                    add(P, m);
+                }
+                {
+                    Member m; m.kind = "via-import+imported-intermediate-using-it" + ex;
+                    Def d; d.name = "r"; Item i1{"imp", a}, i2{"impm", b};
+                    d.items = order ? std::vector<Item>{i2, i1} : std::vector<Item>{i1, i2};
+                    Def mid; mid.name = "mid"; mid.items = {{"in", cc}};
+                    m.main = {d, impDef("imp", "in"), impDef("impm", "mid")}; m.lib = inners[k]; m.lib.push_back(mid); needBases(m.lib); m.root = "r";
+                    m.twin = int(P.size()) + (order ? -2 : 2); m.twinWhy = "child-order";
+                    add(P, m);
+                }
+            }
+        }
+    }
     // through an imported user base unit (import keeps the name), every attribute combination
     for (auto &a : A) {
         Member m;
